@@ -3,7 +3,8 @@
    behaviour of the unchanged tree (P9: EXDEV from a temporary directory on another file system; P10: a
    partially downloaded file enters the cache) and for the class the repaired tree still has (a partially
    UPLOADED object is brought back as if it were good), Print Assumptions.
-   cf : cfg carries the two switches; as_is = the unchanged tree, all_fixed = with repo-patches 63 and 64. *)
+   cf : cfg carries the switches; as_is = the unchanged tree, all_fixed = with repo-patches 63, 64 and 65
+   (65: `send --force` to a local storage removed the stored object before looking for the cache object). *)
 From Coq Require Import List Bool NArith.
 From XV Require Import Base.Amap Base.Bytes Storage.Model Storage.Proofs.
 Import ListNotations.
@@ -15,15 +16,15 @@ Import ListNotations.
    whatever its recheck method.  The workspace files of T' in the clone are absent, or what the committed
    version left (a copy, a now dangling link), or anything at all with --force. *)
 Theorem send_bring_roundtrip :
-  forall cf k1 k2 tmp r0 st T f1 clone T' force f2,
+  forall cf k1 k2 tmp r0 st T fsend f1 clone T' force f2,
     all_ok f1 = true -> all_ok f2 = true -> tmp || fixed_P9 cf = true ->
     (forall p, In p T -> exists b, committed r0 p = Some b) ->
     incl T' T ->
     r_guid clone = r_guid r0 -> r_recs clone = r_recs r0 -> r_cache clone = [] ->
     (force = true \/ forall p, In p T' -> ws_unmodified r0 clone p) ->
-    snd (bring cf k2 tmp clone (fst (send k1 r0 st T f1)) T' force f2) <> Panic /\
+    snd (bring cf k2 tmp clone (fst (send cf k1 r0 st T fsend f1)) T' force f2) <> Panic /\
     forall p, In p T' ->
-      ws_read (fst (bring cf k2 tmp clone (fst (send k1 r0 st T f1)) T' force f2)) p = committed r0 p.
+      ws_read (fst (bring cf k2 tmp clone (fst (send cf k1 r0 st T fsend f1)) T' force f2)) p = committed r0 p.
 Proof. exact roundtrip. Qed.
 
 (* 2.  Layout: whatever fails, a send writes only keys <guid of the sender>/<cache address of the current
@@ -31,31 +32,48 @@ Proof. exact roundtrip. Qed.
    repositories with distinct guids never collide: what one sends changes no object of the other and no
    result of the other's brings. *)
 Theorem storage_layout :
-  forall k r st ts fs g' a,
-    sget (fst (send k r st ts fs)) (g', a) <> sget st (g', a) ->
+  forall cf k r st ts force fs g' a,
+    sget (fst (send cf k r st ts force fs)) (g', a) <> sget st (g', a) ->
     g' = r_guid r /\ exists p x, In p ts /\ rget r p = Some x /\ a = cache_addr p (r_digest x).
 Proof. exact send_layout. Qed.
 
 Theorem sent_objects_are_stored :
-  forall k r st ts fs p b,
+  forall cf k r st ts force fs p b,
     all_ok fs = true -> (forall q, In q ts -> exists c, committed r q = Some c) -> In p ts -> committed r p = Some b ->
-    exists a, addr_of r p = Some a /\ sget (fst (send k r st ts fs)) (r_guid r, a) = Some b.
+    exists a, addr_of r p = Some a /\ sget (fst (send cf k r st ts force fs)) (r_guid r, a) = Some b.
 Proof. exact send_ok_stores. Qed.
 
 Theorem distinct_guids_never_collide :
-  forall cf k1 k2 tmp r1 r2 st ts1 ts2 force fs1 fs2,
+  forall cf k1 k2 tmp r1 r2 st ts1 ts2 force fsend fs1 fs2,
     r_guid r1 <> r_guid r2 ->
-    (forall a, sget (fst (send k2 r2 st ts2 fs2)) (r_guid r1, a) = sget st (r_guid r1, a)) /\
-    bring cf k1 tmp r1 (fst (send k2 r2 st ts2 fs2)) ts1 force fs1 = bring cf k1 tmp r1 st ts1 force fs1.
+    (forall a, sget (fst (send cf k2 r2 st ts2 fsend fs2)) (r_guid r1, a) = sget st (r_guid r1, a)) /\
+    bring cf k1 tmp r1 (fst (send cf k2 r2 st ts2 fsend fs2)) ts1 force fs1 = bring cf k1 tmp r1 st ts1 force fs1.
 Proof. exact no_collision. Qed.
 
 (* 3.  Repeating changes nothing (states equal pointwise), from ANY state: also when the local send stopped
    at a missing object, when the storage lacks objects, with --force, with duplicates. *)
 Theorem send_idempotent :
-  forall k r st ts fs1 fs2 key,
+  forall cf k r st ts force fs1 fs2 key,
     all_ok fs1 = true -> all_ok fs2 = true ->
-    sget (fst (send k r (fst (send k r st ts fs1)) ts fs2)) key = sget (fst (send k r st ts fs1)) key.
+    sget (fst (send cf k r (fst (send cf k r st ts force fs1)) ts force fs2)) key = sget (fst (send cf k r st ts force fs1)) key.
 Proof. exact send_idem. Qed.
+
+(* "sending again changes nothing" also for what a send cannot send: whatever fails, a send never REMOVES a
+   stored object (it may replace it) -- for the repaired local storage, without --force, or through a generic
+   storage.  On the unchanged tree `send --force` from a repository that lacks the cache object removes the
+   stored copy and then fails (send_force_loses_object_refuted below). *)
+Definition C06_send_never_removes (cf : cfg) : Prop :=
+  forall k r st ts force fs key b,
+    sget st key = Some b -> exists b', sget (fst (send cf k r st ts force fs)) key = Some b'.
+Theorem send_never_removes : forall cf, fixed_send_force cf = true -> C06_send_never_removes cf.
+Proof.
+  intros cf H k r st ts force fs key b Hb.
+  apply (send_present cf k r st ts force fs key b); [|exact Hb].
+  left. rewrite H. now destruct force.
+Qed.
+Theorem send_without_force_never_removes :
+  forall cf k r st ts fs key b, sget st key = Some b -> exists b', sget (fst (send cf k r st ts false fs)) key = Some b'.
+Proof. intros cf k r st ts fs key b Hb. exact (send_present cf k r st ts false fs key b (or_introl eq_refl) Hb). Qed.
 
 Theorem bring_idempotent :
   forall cf k tmp r st ts force fs1 fs2,
@@ -130,13 +148,13 @@ Qed.
 
 (* the round trip computed: local and generic, temporary directory on another file system, repaired tree *)
 Example roundtrip_instance :
-  ws_read (fst (bring all_fixed Generic false CLONE (fst (send Local R0 [] [A_TXT; B_TXT] [])) [B_TXT; A_TXT] false [])) B_TXT = Some BETA
-  /\ ws_read (fst (bring all_fixed Local false CLONE (fst (send Generic R0 [] [A_TXT; B_TXT] [])) [A_TXT] false [])) A_TXT = Some ALPHA.
+  ws_read (fst (bring all_fixed Generic false CLONE (fst (send all_fixed Local R0 [] [A_TXT; B_TXT] false [])) [B_TXT; A_TXT] false [])) B_TXT = Some BETA
+  /\ ws_read (fst (bring all_fixed Local false CLONE (fst (send all_fixed Generic R0 [] [A_TXT; B_TXT] true [])) [A_TXT] false [])) A_TXT = Some ALPHA.
 Proof. split; vm_compute; reflexivity. Qed.
 
 (* the same on the unchanged tree with the temporary directory on the repository's file system *)
 Example roundtrip_instance_as_is :
-  ws_read (fst (bring as_is Local true CLONE (fst (send Local R0 [] [A_TXT; B_TXT] [])) [B_TXT; A_TXT] false [])) B_TXT = Some BETA.
+  ws_read (fst (bring as_is Local true CLONE (fst (send all_fixed Local R0 [] [A_TXT; B_TXT] false [])) [B_TXT; A_TXT] false [])) B_TXT = Some BETA.
 Proof. vm_compute. reflexivity. Qed.
 
 (* P9 (unchanged tree): TMPDIR on another file system -- bring panics and brings nothing; on the
@@ -144,12 +162,12 @@ Proof. vm_compute. reflexivity. Qed.
 Theorem exdev_refuted : ~ C06_tmp_location_irrelevant as_is.
 Proof.
   intros H.
-  specialize (H Local CLONE (fst (send Local R0 [] [A_TXT] [])) [A_TXT] false []).
+  specialize (H Local CLONE (fst (send as_is Local R0 [] [A_TXT] false [])) [A_TXT] false []).
   vm_compute in H. discriminate H.
 Qed.
 Example exdev_panics :
-  snd (bring as_is Local false CLONE (fst (send Local R0 [] [A_TXT] [])) [A_TXT] false []) = Panic
-  /\ ws_read (fst (bring as_is Local false CLONE (fst (send Local R0 [] [A_TXT] [])) [A_TXT] false [])) A_TXT = None.
+  snd (bring as_is Local false CLONE (fst (send as_is Local R0 [] [A_TXT] false [])) [A_TXT] false []) = Panic
+  /\ ws_read (fst (bring as_is Local false CLONE (fst (send as_is Local R0 [] [A_TXT] false [])) [A_TXT] false [])) A_TXT = None.
 Proof. split; vm_compute; reflexivity. Qed.
 
 (* the witnesses of the fault theorems: origin 0 and its clone 1 around an empty storage *)
@@ -166,37 +184,37 @@ Definition ADDR_A : caddr := cache_addr A_TXT (digest_of B3 ALPHA).
 
 (* P10 (unchanged tree): the download command writes half and fails: the half is moved to the cache address *)
 Definition P10_STEPS : list step :=
-  [SSend 0 Generic [A_TXT] []; SClone 0 1; SBring 1 Generic true false [A_TXT] [FPartial]].
+  [SSend 0 Generic false [A_TXT] []; SClone 0 1; SBring 1 Generic true false [A_TXT] [FPartial]].
 Theorem partial_download_refuted : ~ C06_no_wrong_object transfer_step as_is.
 Proof.
   intros H. destruct (H TRUTH P10_STEPS W0 eq_refl W0_sound) as [Hr _].
-  assert (E : wrepo (wrun as_is W0 P10_STEPS) 1 = Some (fst (bring as_is Generic true CLONE (fst (send Generic R0 [] [A_TXT] [])) [A_TXT] false [FPartial])))
+  assert (E : wrepo (wrun as_is W0 P10_STEPS) 1 = Some (fst (bring as_is Generic true CLONE (fst (send as_is Generic R0 [] [A_TXT] false [])) [A_TXT] false [FPartial])))
     by (vm_compute; reflexivity).
   specialize (Hr 1 _ E ADDR_A [97; 108; 112] eq_refl). vm_compute in Hr. discriminate Hr.
 Qed.
 (* the same history on the repaired tree leaves the cache of the clone without that object *)
 Example partial_download_fixed :
-  cget (r_cache (fst (bring all_fixed Generic true CLONE (fst (send Generic R0 [] [A_TXT] [])) [A_TXT] false [FPartial]))) ADDR_A = None.
+  cget (r_cache (fst (bring all_fixed Generic true CLONE (fst (send as_is Generic R0 [] [A_TXT] false [])) [A_TXT] false [FPartial]))) ADDR_A = None.
 Proof. vm_compute. reflexivity. Qed.
 (* the same address requested twice (two paths, one content): first download complete, second one partial;
    reported (by the first) and partial (by the second) -- why the repair also asks for every address once *)
 Example duplicate_address_as_is :
   let r := track R0 [99; 46; 116; 120; 116] Copy ALPHA in        (* c.txt with the content of a.txt *)
   let cl := {| r_guid := 7; r_algo := B3; r_recs := r_recs r; r_cache := []; r_ws := [] |} in
-  cget (r_cache (fst (bring as_is Generic true cl (fst (send Generic r [] [A_TXT] [])) [A_TXT; [99; 46; 116; 120; 116]] false [FOk; FPartial]))) ADDR_A
+  cget (r_cache (fst (bring as_is Generic true cl (fst (send as_is Generic r [] [A_TXT] false [])) [A_TXT; [99; 46; 116; 120; 116]] false [FOk; FPartial]))) ADDR_A
   = Some [97; 108; 112]
-  /\ cget (r_cache (fst (bring all_fixed Generic true cl (fst (send Generic r [] [A_TXT] [])) [A_TXT; [99; 46; 116; 120; 116]] false [FOk; FPartial]))) ADDR_A
+  /\ cget (r_cache (fst (bring all_fixed Generic true cl (fst (send as_is Generic r [] [A_TXT] false [])) [A_TXT; [99; 46; 116; 120; 116]] false [FOk; FPartial]))) ADDR_A
   = Some ALPHA.
 Proof. split; vm_compute; reflexivity. Qed.
 
 (* the class that remains after both repairs: an UPLOAD command that fails after writing half leaves the half
    in the storage; a later bring whose download succeeds takes it for the object (bring does not re-hash) *)
 Definition UPLOAD_STEPS : list step :=
-  [SSend 0 Generic [A_TXT] [FPartial]; SClone 0 1; SBring 1 Generic true false [A_TXT] []].
+  [SSend 0 Generic false [A_TXT] [FPartial]; SClone 0 1; SBring 1 Generic true false [A_TXT] []].
 Theorem partial_upload_refuted : ~ C06_no_wrong_object structural_step all_fixed.
 Proof.
   intros H. destruct (H TRUTH UPLOAD_STEPS W0 eq_refl W0_sound) as [Hr _].
-  assert (E : wrepo (wrun all_fixed W0 UPLOAD_STEPS) 1 = Some (fst (bring all_fixed Generic true CLONE (fst (send Generic R0 [] [A_TXT] [FPartial])) [A_TXT] false [])))
+  assert (E : wrepo (wrun all_fixed W0 UPLOAD_STEPS) 1 = Some (fst (bring all_fixed Generic true CLONE (fst (send all_fixed Generic R0 [] [A_TXT] false [FPartial])) [A_TXT] false [])))
     by (vm_compute; reflexivity).
   specialize (Hr 1 _ E ADDR_A [97; 108; 112] eq_refl). vm_compute in Hr. discriminate Hr.
 Qed.
@@ -206,7 +224,7 @@ Proof. split; reflexivity. Qed.
 (* a non-trivial history for theorem 4: faults of both kinds on the downloads, a failing upload, a repeated
    bring, the temporary directory on another file system; the clone ends with the one object it could get *)
 Definition MIXED_STEPS : list step :=
-  [SSend 0 Generic [A_TXT; B_TXT] [FOk; FClean]; SClone 0 1; SBring 1 Generic false false [B_TXT; A_TXT] [FPartial; FPartial];
+  [SSend 0 Generic true [A_TXT; B_TXT] [FOk; FClean]; SClone 0 1; SBring 1 Generic false false [B_TXT; A_TXT] [FPartial; FPartial];
    SBring 1 Generic false true [A_TXT; B_TXT] [FOk; FClean]; SDropCache 0; SBring 0 Local true false [A_TXT; B_TXT] []].
 Example mixed_history :
   forallb transfer_step MIXED_STEPS = true /\
@@ -218,7 +236,20 @@ Proof. split; [reflexivity|]. vm_compute. repeat split; reflexivity. Qed.
 
 (* layout instance: the key written is <guid 7>/<address of a.txt> *)
 Example layout_instance :
-  sget (fst (send Local R0 [] [A_TXT] [])) (7, ADDR_A) = Some ALPHA /\ sget (fst (send Local R0 [] [A_TXT] [])) (8, ADDR_A) = None.
+  sget (fst (send as_is Local R0 [] [A_TXT] false [])) (7, ADDR_A) = Some ALPHA /\ sget (fst (send as_is Local R0 [] [A_TXT] false [])) (8, ADDR_A) = None.
+Proof. split; vm_compute; reflexivity. Qed.
+
+(* unchanged tree: the clone (empty cache) runs `send --force a.txt` to the local storage: the stored object is
+   removed, then the copy fails; repaired, the object stays *)
+Theorem send_force_loses_object_refuted : ~ C06_send_never_removes as_is.
+Proof.
+  intros H.
+  destruct (H Local CLONE (fst (send as_is Local R0 [] [A_TXT] false [])) [A_TXT] true [] (7, ADDR_A) ALPHA eq_refl) as [b' Hb].
+  vm_compute in Hb. discriminate Hb.
+Qed.
+Example send_force_fixed :
+  sget (fst (send all_fixed Local CLONE (fst (send as_is Local R0 [] [A_TXT] false [])) [A_TXT] true [])) (7, ADDR_A) = Some ALPHA
+  /\ snd (send all_fixed Local CLONE (fst (send as_is Local R0 [] [A_TXT] false [])) [A_TXT] true []) = Err.
 Proof. split; vm_compute; reflexivity. Qed.
 
 Print Assumptions send_bring_roundtrip.
@@ -226,6 +257,9 @@ Print Assumptions storage_layout.
 Print Assumptions sent_objects_are_stored.
 Print Assumptions distinct_guids_never_collide.
 Print Assumptions send_idempotent.
+Print Assumptions send_never_removes.
+Print Assumptions send_without_force_never_removes.
+Print Assumptions send_force_loses_object_refuted.
 Print Assumptions bring_idempotent.
 Print Assumptions failed_transfer_leaves_no_wrong_object.
 Print Assumptions bring_admits_no_wrong_object.
